@@ -94,6 +94,11 @@ CLAIMS = {
   text="Exploration: documents in which ~40 value kinds (all name parts, sex, event values, dates, places, notes at three levels, identifiers, marriage/divorce data, source titles and properties incl. nested ones, optionally pointers) carry a unique token are published in every visibility mode with random page-group masks, rendered as diff reports (show x sort) against an edited copy, and written by the HTML query formatter. Oracle: at every occurrence of a token id the bytes up to its closing marker contain no raw < or >, no bare &, no raw double quote inside attribute values and no raw single quote inside event handlers; every page tokenises and is well nested (hand-written tokenizer); the same document with benign values is the control that attributes structural problems to content.",
   note="Trusted: internal/ref/html.go (tokenizer, void elements, '/>' self-closing, script/style raw text). Quotes in element content cannot change structure and are not judged. The HTML query formatter concatenates fragments, so only escaping is judged there.",
   design="6.18"),
+ "C19": dict(
+  technique="PBT (rapid) over hostile family graphs with a closed/confined/collision-free/deterministic site oracle on an in-memory FileWriter, exhaustive k-th-write fault injection, fresh-process history differential, race-detector children",
+  text="Exploration: family graphs whose names, places and source pointers are drawn from hostile pools (../x, a/b, names of fixed pages, case and punctuation variants of one name, multi-byte and digit initials, pointers that collapse to one key) are published through the public Publisher into a FileWriter that keeps every file, for every visibility, random page-group masks, jobs 1/2/8/16 and repetitions. Oracle: every name handed to the writer is a plain file name; no name is handed over twice (attributed by the kinds of page that collide); every href / location.href of every page (hand-written tokenizer) is '#...', absolute or a generated file; the map name->bytes is identical for every jobs value and repetition, and identical to what a fresh process produces when another document was published first in this one. For every k up to the number of files the k-th WriteFile fails: Publish must return the error, not panic, not hang. A -race build of the same publishing runs as a child and any report is a violation.",
+  note="Trusted: internal/ref/html.go (tokenizer, link extraction), the in-memory writer. Only exact name collisions are judged (no case folding). A collision makes the surviving page schedule-dependent, so determinism is judged on collision-free sites only. Known findings C19-F1 (no single namespace for fixed, source and entity pages) and C19-F2 (links into switched-off page groups) are attributed by exact signature; person/place, person/person, place/place and source/source collisions are not part of them.",
+  design="6.19"),
  "C20": dict(
   technique="model-based PBT (rapid): warnings oracle evaluated on generated facts (day numbers) vs Document.Warnings(), metamorphic record/child reordering, CLI line count",
   text="Exploration: family graphs with exact dates are generated so that each warning condition is met or not met, with the boundaries that whole days decide generated exactly (sibling gaps 0/1/2/3 days, child born the day before/of/after a parent's birth, later-group events the day before/of an earlier-group event) and margins only around the approximate thresholds (16 and 100 years, 9 months). The expected multiset of (kind, people, dates) is computed from the blueprint alone and must equal the typed projection of Document.Warnings() (name, context, people named in the message), also after reversing records and children; the built 'gedcom warnings' binary must print exactly one line per warning.",
